@@ -318,9 +318,11 @@ def autoDim (name : String) (n : Nat) : M α Unit := fun s =>
     if n > 4 then .error .badSubscript
     else
       let cells := 11 ^ n
-      .ok ((), s.setVar name { v with dims := List.replicate n 11,
-                                     arr := Array.replicate (if isStrName name then 0 else cells) BNum.zero,
-                                     sarr := Array.replicate (if isStrName name then cells else 0) "" })
+      let v' : Var α := { v with
+        dims := List.replicate n 11
+        arr := Array.replicate (if isStrName name then 0 else cells) BNum.zero
+        sarr := Array.replicate (if isStrName name then cells else 0) "" }
+      .ok ((), s.setVar name v')
   else .ok ((), s)
 
 /-- second part of `findvar`: bound test, row-major cell, `val`/`sval` left pointing at the cell -/
